@@ -65,13 +65,15 @@ NoDup(q) == \A i, j \in DOMAIN q : i # j => q[i] # q[j]
 (* Unusual inputs (round 7).  What today's code makes of strings of the    *)
 (* wrong kind; e.pay names how an input is written down.                   *)
 (*                                                                         *)
-(* Providers.  MsgCreateFeed / MsgEditFeed do not validate the provider    *)
-(* strings; keeper.go converts them with `pd, _ := AccAddressFromBech32`:  *)
-(* a string that is no account address ("?garbage", an address under the   *)
-(* validator prefix "?valoper") becomes the EMPTY address and is stored as *)
-(* provider "" (never bound, never asked); bech32 in upper case ("?upper", *)
-(* p1's address) is p1; the address of the service request escrow          *)
-(* ("?module") is an address like any other.                               *)
+(* Providers.  Since fix 8afa321 (finding R7-3) MsgCreateFeed / MsgEditFeed  *)
+(* ValidateBasic refuse a provider string that is no account address       *)
+(* ("?garbage", an address under the validator prefix "?valoper"); before  *)
+(* it keeper.go converted such a string with `pd, _ := ...FromBech32` to   *)
+(* the EMPTY address and stored it as provider "" - which the service      *)
+(* module's genesis validation refuses, so every later export of the chain *)
+(* was unimportable.  bech32 in upper case ("?upper", p1's address) is p1; *)
+(* the address of the service request escrow ("?module") is an address     *)
+(* like any other.                                                         *)
 (*                                                                         *)
 (* Feed names.  ValidateFeedName: ^[a-zA-Z][a-zA-Z0-9/_-]*$; names are     *)
 (* case sensitive ("FA" is another feed than "fa").                        *)
@@ -90,9 +92,10 @@ NoDup(q) == \A i, j \in DOMAIN q : i # j => q[i] # q[j]
 (* without output, another result with one, a result code outside the      *)
 (* schema, an output without header, a request id of the wrong length.     *)
 (***************************************************************************)
+BadProvs == {"?garbage", "?valoper"}
+HasBadProv(q) == \E i \in DOMAIN q : q[i] \in BadProvs
 ProvOf(p) ==
-  CASE p \in {"?garbage", "?valoper"} -> ""
-    [] p = "?upper" -> "p1"
+  CASE p = "?upper" -> "p1"
     [] p = "?module" -> SVCREQ
     [] OTHER -> p
 ProvsOf(q) == [i \in DOMAIN q |-> ProvOf(q[i])]
@@ -174,6 +177,7 @@ Callback(s, e, c) ==
 (* msgs.go ValidateBasic + keeper.go CreateFeed + service CreateRequestContext *)
 DoCreateFeed(s, e) ==
   IF e.feed \in BadFeedNames THEN FailW(s, "feed_name")
+  ELSE IF HasBadProv(e.provs) THEN FailW(s, "provider")
   ELSE IF e.pay \in SvcPays THEN FailW(s, "unknown_service")
   ELSE IF e.lh < 1 \/ e.lh > MaxLatestHistory THEN FailW(s, "latest_history")
   ELSE IF e.timeout <= 0 \/ e.freq < e.timeout THEN FailW(s, "timeout")
@@ -225,7 +229,8 @@ DoPauseFeed(s, e) ==
 
 (* keeper.go EditFeed + service UpdateRequestContext.  0 / <<>> = unchanged *)
 DoEditFeed(s, e) ==
-  IF e.lh # 0 /\ (e.lh < 1 \/ e.lh > MaxLatestHistory) THEN FailW(s, "latest_history")
+  IF HasBadProv(e.provs) THEN FailW(s, "provider")
+  ELSE IF e.lh # 0 /\ (e.lh < 1 \/ e.lh > MaxLatestHistory) THEN FailW(s, "latest_history")
   ELSE IF e.cap < 0 THEN FailW(s, "fee_cap")
   ELSE IF e.timeout # 0 /\ e.freq # 0 /\ e.freq < e.timeout THEN FailW(s, "timeout")
   ELSE IF e.thr # 0 /\ Len(e.provs) # 0 /\ e.thr > Len(e.provs) THEN FailW(s, "threshold")
